@@ -30,6 +30,8 @@ func main() {
 		runRegistry(*in, *out, *seed)
 	case "conc":
 		runConc(*in, *out, *seed)
+	case "pool":
+		runPool(*in, *out, *seed)
 	case "nego":
 		runNego(*in, *out, *seed)
 	default:
